@@ -125,6 +125,7 @@ fn cell(idx: u64, seed: u64, variant: u64, rec: &mut Rec) {
     let status = STATUS[take(5)];
     let framing = FRAMING[take(4)];
     let resp_conn = RESP_CONN[take(6)];
+    let unsolicited = take(2);
     let body_method = needs_body(method);
     if !body_method && hs != "none" {
         return;
@@ -132,8 +133,11 @@ fn cell(idx: u64, seed: u64, variant: u64, rec: &mut Rec) {
     if hs == "refused-bare" && (framing != "bare" || !resp_conn.is_empty()) {
         return;
     }
-    if http10_resp && framing == "chunked" {
-        return; // not defined for HTTP/1.0 responses (C06 marks the 3xx case don't-care)
+    if http10_resp && framing == "chunked" && is_redirect_status(status) {
+        return; // C06 leaves an HTTP/1.0 3xx whose only framing header is chunked open
+    }
+    if unsolicited == 1 && (hs == "refused-bare" || hs == "refused-with-fields" || hs == "gave-up") {
+        return; // with gave-up the first 100 would be the late one: C11's business
     }
     let mut cfg = ReqCfg::new(method, "http://h.test/x");
     cfg.ver = ver;
@@ -185,6 +189,7 @@ fn cell(idx: u64, seed: u64, variant: u64, rec: &mut Rec) {
         },
         close_data: b"until close".to_vec(),
         extra_interim: 0,
+        unsolicited_100: unsolicited,
     };
     let (stream, truth) = match ex.render() {
         Some(v) => v,
@@ -208,6 +213,12 @@ fn cell(idx: u64, seed: u64, variant: u64, rec: &mut Rec) {
     let nbits = truth.close_bits.iter().filter(|b| **b).count();
     let vec_id: String = truth.close_bits.iter().map(|b| if *b { '1' } else { '0' }).collect();
     rec.cov(&format!("conditions={}/{}", vec_id, truth.terminal));
+    if unsolicited == 1 {
+        rec.cov("after-unsolicited-100");
+    }
+    if http10_resp && framing == "chunked" {
+        rec.cov("http10-response-with-ignored-chunked");
+    }
     rec.stat(
         match nbits {
             0 => "exchanges-with-0-conditions",
@@ -310,14 +321,14 @@ fn partial_redirect_cell(idx: u64, rec: &mut Rec) {
     }
 }
 
-const CELLS: u64 = 8 * 5 * 5 * 2 * 5 * 4 * 6;
+const CELLS: u64 = 8 * 5 * 5 * 2 * 5 * 4 * 6 * 2;
 
 impl Property for P {
     fn id(&self) -> &'static str {
         "C10"
     }
     fn rule(&self) -> String {
-        "exhaustive product realising the five close conditions: (method, request version) x request Connection {absent, close, keep-alive, two fields, some other token} x Expect handshake {none, 100 received, gave up, refused bare, refused with fields} x response version x status {200, 302, 404, 307, 102} x framing {length, chunked, bare, zero length} x response Connection {absent, close, keep-alive, two fields either order, some other token}; every cell is a full exchange driven to Cleanup (through Redirect for 3xx), once with one-shot I/O and again under random segmentation schedules; must_close_connection()/close_reason() at Redirect and Cleanup are compared with the disjunction computed from the description. class = condition bit-vector x exit path.".into()
+        "exhaustive product realising the five close conditions: (method, request version) x request Connection {absent, close, keep-alive, two fields, some other token} x Expect handshake {none, 100 received, gave up, refused bare, refused with fields} x response version x status {200, 302, 404, 307, 102} x framing {length, chunked, bare, zero length} x response Connection {absent, close, keep-alive, two fields either order, some other token} x {no, one} unsolicited 100 Continue in front of the final response; every cell is a full exchange driven to Cleanup (through Redirect for 3xx), once with one-shot I/O and again under random segmentation schedules; must_close_connection()/close_reason() at Redirect and Cleanup are compared with the disjunction computed from the description. class = condition bit-vector x exit path.".into()
     }
     fn assumptions(&self) -> Vec<String> {
         vec![
@@ -346,7 +357,7 @@ impl Property for P {
         }
     }
     fn floors(&self, _tier: Tier) -> Vec<(String, u64)> {
-        let mut v = vec![("partial-redirect/accepted/*".to_string(), 50), ("open-framing/*".to_string(), 100)];
+        let mut v = vec![("partial-redirect/accepted/*".to_string(), 50), ("open-framing/*".to_string(), 100), ("after-unsolicited-100".to_string(), 1000), ("http10-response-with-ignored-chunked".to_string(), 100)];
         // all 32 vectors must occur on the Cleanup path, the 16 without close-delimited on Redirect
         for m in 0..32u32 {
             let id: String = (0..5).map(|i| if m & (1 << i) != 0 { '1' } else { '0' }).collect();
